@@ -6,6 +6,7 @@
 mod checks;
 mod cols;
 mod expect;
+mod fields;
 mod gen;
 mod layout;
 mod real;
@@ -251,8 +252,11 @@ fn cmd_replay_beh(a: &Args) {
 			for c in &checks {
 				match c.as_str() {
 					"c01" => ctx.c01_roundtrip(&mut viols),
-					"inc" => ctx.incremental(false, &mut viols),
-					"incrows" => ctx.incremental(true, &mut viols),
+					"c03" => ctx.c03_fields(true, true, &mut viols),
+					"c04" => ctx.c04_oneshot(&mut viols),
+					"inc04" => ctx.incremental("c04", &mut viols),
+					"inc12" => ctx.incremental("c12", &mut viols),
+					"inc13" => ctx.incremental("c13", &mut viols),
 					"rows" => ctx.rowview(&mut viols),
 					"arrow" => ctx.arrow(&mut viols),
 					"slpp" => ctx.slpp_roundtrip(&comps, (idx + vi) % 2 == 0, &mut viols),
@@ -272,6 +276,7 @@ fn main() {
 	util::install_panic_hook();
 	match a.cmd.as_str() {
 		"replay-beh" => cmd_replay_beh(&a),
+		"fields" => fields::cmd_fields(&a),
 		_ => {
 			eprintln!("usage: pv <replay-beh|...> --key value ...");
 			std::process::exit(2);
